@@ -76,6 +76,34 @@ def gen_cases(tier, seed):
         pts = (rng.normal(size=(N, 3)) * 1.2).tolist()  # charges inside the functions, where the Schwarz bound is nearly attained
         q = [float(x) for x in np.exp(rng.uniform(np.log(0.1), np.log(100), size=N))]
         cases.append({"shells": shells, "points": pts, "charges": q, "eri": False, "classes": classes + ["1e", "many-charges:%d" % N, "nsh:%d" % len(ls), "types:" + "".join(tp)], "cost": 200 + N})
+    # bridged pairs: two contracted shells A, B a few bohr apart whose tight primitives do not overlap while their diffuse
+    # ones do, and a diffuse shell C in between that overlaps both. If the block (A, B) is lost or damaged (dropped by a
+    # screening rule, taken from another pair, ...) the Gram matrix of {A, B, C} stops being semi-definite:
+    # cos^2(A,C) + cos^2(B,C) > 1 cannot hold with cos(A,B) = 0. Primitives are listed diffuse-to-tight, tight-to-diffuse
+    # or unsorted.
+    for k in range(12 if tier == "quick" else 240):
+        rng = bases.rng_for("C17", seed, tier, "bridge", k)
+        eri = k % 4 == 3
+        lab = [int(x) for x in rng.choice([0, 0, 1], size=2)]
+        Rab = float(rng.uniform(1.8, 3.0))
+        u = rng.normal(size=3)
+        u /= np.linalg.norm(u)
+        c0 = rng.normal(size=3)
+        pair = []
+        for j, l in enumerate(lab):
+            a = float(rng.uniform(0.08, 0.2))
+            e = [a, max(45.0, a * float(rng.uniform(300, 3000))), a * float(rng.uniform(5, 20))][: (2 if eri else int(rng.integers(2, 4)))]
+            order = [list(range(len(e))), list(range(len(e)))[::-1], list(rng.permutation(len(e)))][k % 3]
+            e = [e[i_] for i_ in order]
+            kk = bases.rand_coeffs(rng, l, e, 1 if eri else int(rng.integers(1, 3)))
+            # the diffuse primitive carries most of the weight
+            kk = [[v * (3.0 if e[i_] == min(e) else 0.4) for v in row] for i_, row in enumerate(kk)]
+            pair.append({"l": l, "c": [float(v) for v in c0 + (j - 0.5) * Rab * u], "e": e, "k": kk, "t": str(rng.choice(["c", "p"]))})
+        mid = {"l": 0, "c": [float(v) for v in c0 + 0.05 * rng.normal(size=3)], "e": [float(rng.uniform(0.1, 0.3))], "k": [[1.0]], "t": "c"}
+        shells = [pair[0], pair[1], mid] if k % 2 == 0 else [mid, pair[1], pair[0]]
+        pts = [[float(v) for v in c0 + 0.3 * rng.normal(size=3)] for _ in range(2)]
+        cases.append({"shells": shells, "points": pts, "charges": [1.0, 3.5], "eri": eri,
+                      "classes": ["bridged-pair", "prims:" + ["diffuse-first", "tight-first", "unsorted"][k % 3], "eri" if eri else "1e", "nsh:3"], "cost": 200 if eri else 20})
     cases += bases.argrep_variants("C17", seed, tier, cases, 6, ok=lambda c: "shells" in c and c.get("kind") in (None, "whole", "kernel", "perm", "real"))  # constructor arguments in other in-memory representations
     return cases
 
